@@ -370,6 +370,31 @@ def run(ctx) -> None:
         ok_s = any(isinstance(lp.iter, ast.Call) and call_name(lp.iter) == "range" for lp in loops)
         ctx.ob("C04.R4-user-variables", c, ok_p and ok_s, "for every platform and every stage" if ok_p and ok_s else
                "user variables are not injected for every platform and stage", construct="for plat in platforms: for stage in range(n)")
+    # the variables injected for stage N are (user global) + (user stage N) and nothing else: the dictionary whose items are
+    # injected is created inside the loop over the stages (a fresh copy per stage), not carried over from the previous stage
+    from vlib import flow
+    cpv = CFG(pv)
+    for c in calls:
+        stage_loops = [a for a in source.ancestors(c) if isinstance(a, ast.For) and isinstance(a.iter, ast.Call) and call_name(a.iter) == "range"]
+        src_names = {x.value.id for a in c.args for x in ast.walk(a) if isinstance(x, ast.Subscript) and isinstance(x.value, ast.Name)}
+        item_loops = [a for a in source.ancestors(c) if isinstance(a, ast.For) and isinstance(a.iter, ast.Name)]
+        src_names |= {a.iter.id for a in item_loops}
+        for nm in sorted(src_names):
+            st = source.stmt_of(c)
+            nodes = [n for n in cpv.nodes if n.ast is st]
+            rd = flow.reaching_defs(cpv, nm, ignore_labels=("exc",)).get(nodes[0].id, frozenset()) if nodes else frozenset()
+            defs = [cpv.nodes[d] for d in rd if d >= 0]
+            if not defs or not stage_loops:
+                continue
+            inner_stage = stage_loops[0]
+            ok = all(any(d.ast is x for x in ast.walk(inner_stage)) for d in defs) and all(
+                isinstance(flow.def_value(cpv, d.id, nm), ast.Call) and (call_name(flow.def_value(cpv, d.id, nm)) or "").split(".")[-1] in ("deepcopy", "deep_copy", "dict", "copy")
+                or isinstance(flow.def_value(cpv, d.id, nm), (ast.Dict, ast.DictComp)) for d in defs)
+            ctx.ob("C04.R4-user-variables", defs[0].ast, ok,
+                   "the variables injected for a stage are rebuilt for every stage from the user's global variables" if ok else
+                   "the dictionary of variables injected for a stage (%s) is created outside the loop over the stages: it keeps the user's "
+                   "variables of the earlier stages, so stage N also receives (and prefers) what the user supplied for stages < N" % nm,
+                   construct="%s is created per stage" % nm)
     init = conf.func("FlowIRExperimentConfiguration._initialize")
     c4 = CFG(init)
     patch = match.nodes_calling(c4, lambda c: last_attr(c) == "_patch_in_variable_files")
